@@ -1,5 +1,6 @@
 import Proofs.Static
 import Proofs.TypeExpr
+import Proofs.Traversal
 /-!
 # C20 — static analysis of an expression agrees with its evaluation and round-trips
 
@@ -66,3 +67,33 @@ example : parseType (typeString (.object [("a", .list .str), ("b", .tuple [.num,
 
 end TypeExpr
 end HclModel
+
+/-! ## the stand-alone traversal parser and the expression parser
+
+`HclModel/Syntax/Traversal.lean` models both readers of a static traversal on the scanner's tokens:
+`standalone` is `hclsyntax.ParseTraversalAbs`, `viaExpression` is `hclsyntax.ParseExpression` followed by
+`hcl.AbsTraversalForExpr`; both are tied to the code by the `TRAV` correspondence on random token strings. -/
+namespace HclModel.Trav
+
+/-- A text accepted by the stand-alone traversal parser denotes the same traversal for the expression parser:
+    same root, same attribute names, same index keys (numbers and strings after escape processing), whatever
+    newlines lie between the tokens. -/
+theorem standalone_agrees_with_expression_parser (ts : List Tok) (t : T) (h : standalone ts = some t) :
+    viaExpression ts = some t :=
+  Proofs.viaExpression_of_standalone ts t h
+
+/-- The converse does not hold: the legacy index form `a.0` is a static traversal for the expression parser
+    only (the stand-alone parser demands a name after a dot). -/
+theorem legacy_index_only_in_expressions :
+    ∃ ts t, viaExpression ts = some t ∧ standalone ts = none :=
+  ⟨[.ident ['a'], .dot, .num 0 false], ⟨['a'], [.index (.num 0)]⟩, by decide, by decide⟩
+
+/-- …and `a.0.1`, scanned as the one number `0.1` after the dot, is rejected by both. -/
+example : viaExpression [.ident ['a'], .dot, .num 1 true] = none ∧ standalone [.ident ['a'], .dot, .num 1 true] = none := by
+  decide
+
+/-- non-vacuity: a traversal with every kind of step, newlines inside the brackets -/
+example : standalone [.ident ['a'], .dot, .ident ['b'], .obrack, .newline, .num 7 false, .cbrack, .obrack, .str ['k', '\\', 'n'], .newline, .cbrack] =
+    some ⟨['a'], [.attr ['b'], .index (.num 7), .index (.str ['k', '\n'])]⟩ := by decide
+
+end HclModel.Trav
